@@ -80,6 +80,7 @@ impl ReadBuffer {
 //@|        r is Ok ==> (forall|i: int| 0 <= i < r->Ok_0 ==> #[trigger] final(self)@[old(self)@.len() + i] == old(io).pending[i]),
 //@|        r is Ok ==> r->Ok_0 <= old(io).pending.len() && final(io).pending == old(io).pending.subrange(r->Ok_0 as int, old(io).pending.len() as int),
 //@|        r is Err ==> final(self)@ =~= old(self)@,                     // a failed read loses nothing that was buffered
+//@|        r is Ok ==> final(io).read_errs == old(io).read_errs,
 //@|        final(self)@ + final(io).pending =~= old(self)@ + old(io).pending,   // the byte stream is conserved, whatever the chunking
 //@exit 1| lemma_stream_conserved(old(self)@, old(io).pending, self@, io.pending, count as int);
 }
